@@ -128,6 +128,10 @@ func evalCall(
 		}
 		// iter is not called
 		return prop
+	case *object.PanErr:
+		// NOTE: copy err object, otherwise stacktrace of the shared object is overwritten
+		copied := *prop
+		return &copied
 	default:
 		return prop
 	}
